@@ -81,8 +81,7 @@ let do_opt () =
       | Stop -> print_string "rstatus stop\n"
       | Run r -> print_string "rstatus run\n"; print_state "r" r);
      if nx > 0 then
-       (match parse gen_table wf gen_prog (xcli @ [(Long gen_prog.p_cfgopt, [reloadtok])])
-                (fun _ -> FFile (saved_items gen_table gen_wrules zerotok round6 s)) FNoFile with
+       (match reload_with gen_table wf gen_wrules zerotok round6 gen_prog s reloadtok xcli with
         | Fail -> print_string "xstatus fail\n"
         | Stop -> print_string "xstatus stop\n"
         | Run r -> print_string "xstatus run\n"; print_state "x" r));
